@@ -680,6 +680,8 @@ impl std::ops::Deref for LazyObject {
 
 impl std::ops::DerefMut for LazyObject {
     fn deref_mut(&mut self) -> &mut Self::Target {
+        // (a clone of the view of a raw value is raw as well: parse it one level first)
+        let _ = self.0.as_object_mut();
         if let LazyPacked::Parsed(Parsed::LazyObject(obj)) = &mut self.0 .0 {
             obj
         } else {
@@ -708,6 +710,7 @@ impl LazyObject {
     }
 
     pub fn append_pair(&mut self, key: FastStr, value: OwnedLazyValue) {
+        let _ = self.0.as_object_mut();
         if let LazyPacked::Parsed(Parsed::LazyObject(obj)) = &mut self.0 .0 {
             obj.push((key, value));
         } else {
@@ -746,6 +749,8 @@ impl From<LazyArray> for OwnedLazyValue {
 
 impl std::ops::DerefMut for LazyArray {
     fn deref_mut(&mut self) -> &mut Self::Target {
+        // (a clone of the view of a raw value is raw as well: parse it one level first)
+        let _ = self.0.as_array_mut();
         if let LazyPacked::Parsed(Parsed::LazyArray(obj)) = &mut self.0 .0 {
             obj
         } else {
